@@ -268,6 +268,10 @@ def run_moved(task):
                         found = True
                         styles = set(st for t, st in row.runs if "moved" in t or "text" in t)
                         exp = mapping[params][1] if mapping and params in mapping else want
+                        if ov.get("inspect-raw-lines") == "false":
+                            # the documented kill-switch: input colours are not examined at all, a moved line is
+                            # an ordinary removed / added line (reserved plain styles of lattice.py)
+                            exp = (None, ("i", 101 if sign == "-" else 104), 0)
                         if styles != {exp}:
                             err = "moved %s line coloured ESC[%sm is shown with %s, expected %s" % (
                                 sign, params, sorted(term.style_str(s) for s in styles), term.style_str(exp))
@@ -406,6 +410,7 @@ def main(tier):
         ("moved,sbs", {"side-by-side": True, "width": "80"}, rends[::3], None, deadline),
         ("moved,true-color", {"true-color": "always"}, rends, None, deadline),
         ("moved,map-styles", {}, [r for r in rends if r[0] in mapping] + rends[:40], mapping, deadline),
+        ("moved,inspect-raw-lines=false", {"inspect-raw-lines": "false"}, rends[::2], None, deadline),
     ])
     outs = make_repo()
     lres = explore.pmap(run_log, [(label, ov, outs) for label, ov, k in configs if k <= 1])
